@@ -4,4 +4,5 @@ CONSTRAINT DBound
 ACTION_CONSTRAINT DEmit
 CONSTANTS MaxStack = 14
  MaxOut = 30
+ Rev = FALSE
 CHECK_DEADLOCK FALSE
